@@ -16,10 +16,11 @@
   with any INTERVAL ≥ 1, BYMONTH, BYMONTHDAY, BYYEARDAY, plain BYDAY (any BYDAY for DAILY / WEEKLY,
   where nth members are demoted), BYHOUR, BYMINUTE, BYSECOND, BYSETPOS (DAILY / MONTHLY / YEARLY; WEEKLY
   only when the start is on the week start, see D-C01e), the defaults taken from the start, COUNT, UNTIL (for WEEKLY: UNTIL not before
-  the start), plus `iter_eq_spec_monthly_nth_partial` / `iter_eq_spec_yearly_nth_partial`: nth weekdays counted
-  inside the month (MONTHLY) or the year (YEARLY without BYMONTH).  Missing: the three sub-daily
-  frequencies (the model skips empty periods, so the refinement is not period-by-period), BYWEEKNO,
-  YEARLY nth BYDAY inside BYMONTH months, mixing nth BYDAY with BYMONTHDAY, and BYEASTER (for the latter the mask lemma
+  the start), plus `iter_eq_spec_monthly_nth_partial` / `iter_eq_spec_yearly_nth_partial` /
+  `iter_eq_spec_yearly_bymonth_nth_partial`: nth weekdays counted inside the month (MONTHLY, or YEARLY
+  with BYMONTH) or the year (YEARLY without BYMONTH).  Missing: the three sub-daily frequencies (the
+  model skips empty periods, so the refinement is not period-by-period), BYWEEKNO, mixing nth BYDAY
+  with BYMONTHDAY, and BYEASTER (for the latter the mask lemma
   `eastermask_marks_easter_offsets` is proved but not yet wired into the refinement).  Everything else below — including
   `iter_strictMono` for all seven frequencies — is proved for ALL rules / all argument sets, with no
   `Supported` hypothesis (so also inside the known-defect classes).
@@ -33,6 +34,7 @@ import DateutilVerif.Proofs.RRuleNth
 import DateutilVerif.Proofs.RRuleValid
 import DateutilVerif.Proofs.RRuleNthMonthly
 import DateutilVerif.Proofs.RRuleNthYearly
+import DateutilVerif.Proofs.RRuleNthYM
 
 namespace C01
 open RRule Cal RRule.Tables
@@ -327,6 +329,15 @@ theorem iter_eq_spec_yearly_nth_partial (a : Args) (r : Rule) (na : NthYArgs a) 
     (iter r n).1 = Spec.RRule.occ a n :=
   iter_eq_spec_yearly_nth na h n hy
 
+/-- **`iter_eq_spec`, proved portion, YEARLY with BYMONTH and nth weekdays counted inside each listed
+    month** ("the 4th Thursday of November", "the last Monday of May"): INTERVAL ≥ 1, valid start, BYMONTH
+    with members 1..12, BYDAY made of nth weekdays only, any BYYEARDAY / BYHOUR / BYMINUTE / BYSECOND /
+    BYSETPOS, any COUNT / UNTIL, no BYMONTHDAY / BYWEEKNO / BYEASTER: exactly the specification's set. -/
+theorem iter_eq_spec_yearly_bymonth_nth_partial (a : Args) (r : Rule) (na : NthYMArgs a) (h : construct a = .ok r)
+    (n : Nat) (hy : a.dtstart.y + n * a.interval ≤ 9999) :
+    (iter r n).1 = Spec.RRule.occ a n :=
+  iter_eq_spec_yearly_bymonth_nth na h n hy
+
 /-! ### non-vacuity and the known-finding witnesses reproduced by the model -/
 
 def dt (y m d : Int) (hh : Int := 0) (mm : Int := 0) (ss : Int := 0) : DT := { y, m, d, hh, mm, ss, us := 0 }
@@ -377,6 +388,12 @@ example : NthYArgs { freq := 0, dtstart := dt 1997 5 19 9, byweekday := some [(0
   ⟨rfl, by decide, by decide, rfl, rfl, rfl, rfl, ⟨[(0, 20)], rfl, by decide, by decide⟩⟩
 example : dates (construct { freq := 0, dtstart := dt 1997 5 19 9, byweekday := some [(0, 20)] }) 3
     = [(1997, 5, 19), (1998, 5, 18), (1999, 5, 17)] := by decide +kernel
+
+-- an NthYMArgs instance: the 4th Thursday of November (US Thanksgiving)
+example : NthYMArgs { freq := 0, dtstart := dt 2024 1 1 12, bymonth := some [11], byweekday := some [(3, 4)] } :=
+  ⟨rfl, by decide, by decide, rfl, rfl, rfl, ⟨[11], rfl, by decide, by decide⟩, ⟨[(3, 4)], rfl, by decide, by decide⟩⟩
+example : dates (construct { freq := 0, dtstart := dt 2024 1 1 12, bymonth := some [11], byweekday := some [(3, 4)] }) 3
+    = [(2024, 11, 28), (2025, 11, 27), (2026, 11, 26)] := by decide +kernel
 
 -- D-C01a: MONTHLY with plain MO and nth TU(1): nothing in a whole year although the set has every Monday
 example : dates (construct { freq := 1, dtstart := dt 2020 1 1 9, byweekday := some [(0, 0), (1, 1)] }) 12 = [] := by
